@@ -461,7 +461,22 @@ class Aff:
         return S
 
     # -- facts on edges -------------------------------------------------------------
-    def facts_from_conds(self, conds, sw=()):
+    @staticmethod
+    def apply_sub(lin, sub):
+        """replace symbols by linear forms (repeatedly: a replacement may mention a symbol that is replaced itself)"""
+        if not sub:
+            return lin
+        for _n in range(8):
+            hit = [t for t in lin if t in sub]
+            if not hit:
+                break
+            r = Lin()
+            for t, k in lin.items():
+                r = r.add(sub[t], k) if t in sub else r.add(Lin({t: k}))
+            lin = r
+        return lin
+
+    def facts_from_conds(self, conds, sw=(), sub=None):
         """equalities (Lin == 0) implied by branch conditions; includes residue reasoning:
         a value with an upper bound from an unsigned compare and disequalities that leave a
         single value is equal to that value."""
@@ -473,7 +488,7 @@ class Aff:
             if C is None or C.op != "icmp":
                 continue
             pred = C.get("pred")
-            a, b = self.value(C.ops[0]), self.value(C.ops[1])
+            a, b = self.apply_sub(self.value(C.ops[0]), sub), self.apply_sub(self.value(C.ops[1]), sub)
             if not truth:
                 pred = {"eq": "ne", "ne": "eq", "ult": "uge", "uge": "ult", "ugt": "ule", "ule": "ugt",
                         "slt": "sge", "sge": "slt", "sgt": "sle", "sle": "sgt"}.get(pred)
@@ -488,8 +503,17 @@ class Aff:
                 p = {"ult": "ugt", "ugt": "ult", "ule": "uge", "uge": "ule", "eq": "eq", "ne": "ne"}.get(pred)
             else:
                 continue
+            # the same quantity compared at different offsets (n < 8, n - 4 != 1): bounds are kept for its variable part
+            c0_ = lin.get(1, 0)
+            if c0_:
+                lin = lin.add(Lin.const(c0_), -1)
+                kk -= c0_
+                if kk < 0 and p in ("ult", "ule"):
+                    continue
             key = repr(lin)
             ent = bounds.setdefault(key, [lin, 0, None, set()])
+            if c0_ < 0:
+                ent[1] = max(ent[1], -c0_)       # the compared quantity V + c0 is unsigned: V >= -c0
             if p == "ult":
                 ent[2] = kk - 1 if ent[2] is None else min(ent[2], kk - 1)
             elif p == "ule":
@@ -501,22 +525,38 @@ class Aff:
             elif p == "ne":
                 ent[3].add(kk)
         for v, kind, kk in sw:
-            lin = self.value(v)
+            lin = self.apply_sub(self.value(v), sub)
             if lin.constant() is not None:
                 continue
             if kind == "eq":
                 eqs.append(lin.add(Lin.const(kk), -1))
             else:
-                bounds.setdefault(repr(lin), [lin, 0, None, set()])[3].add(kk)
+                c0_ = lin.get(1, 0)
+                if c0_:
+                    lin = lin.add(Lin.const(c0_), -1)
+                    kk -= c0_
+                ent = bounds.setdefault(repr(lin), [lin, 0, None, set()])
+                ent[3].add(kk)
+                if c0_ < 0:
+                    ent[1] = max(ent[1], -c0_)
         # x - c*(x / c) is a remainder: below c whatever the path
         for key, ent in bounds.items():
             for form, cdiv in self.remainder_forms():
-                if ent[0] == form:
-                    ent[2] = cdiv - 1 if ent[2] is None else min(ent[2], cdiv - 1)
+                form = self.apply_sub(form, sub)
+                c0_ = form.get(1, 0)
+                vform = form.add(Lin.const(c0_), -1) if c0_ else form
+                if ent[0] == vform:
+                    ent[2] = cdiv - 1 - c0_ if ent[2] is None else min(ent[2], cdiv - 1 - c0_)
+                    ent[1] = max(ent[1], -c0_)
+        eqs = _Facts(eqs)
         for key, (lin, lo, hi, excl) in bounds.items():
+            if hi is not None and hi < lo:
+                eqs.infeasible = True           # the conditions contradict each other: no execution comes this way
             if hi is None or hi - lo > 64:
                 continue
             rest = [x for x in range(lo, hi + 1) if x not in excl]
+            if not rest:
+                eqs.infeasible = True
             if len(rest) == 1:
                 eqs.append(lin.add(Lin.const(rest[0]), -1))
         return eqs
@@ -617,40 +657,66 @@ def entails_zero(D, eqs, want_residue=False):
     return all(x == 0 for x in tgt)
 
 
+class _Facts(list):
+    infeasible = False
+
+
 def prove_equal(A, v, target, block, depth=0, extra=None):
     """prove value(v) == target (a Lin) at `block`, splitting non-recurrence phis by incoming edge.
     Three-valued: (True, None) proven; (False, why) refuted - after eliminating the known equalities the difference
     is a non-zero constant or a non-zero combination of entry values of parameters only (free inputs: not identically
     zero); (None, why) unknown - the difference contains values the affine domain does not interpret.
-    The facts known at the use (`block`) travel along: they speak about the values merged at the LAST visit of each merge
-    point, so on an incoming edge of a merge block all its phis are replaced together by what comes in on that edge.  A back
-    edge whose incoming values mention the head's own phis (the previous iteration's values under the same name) cannot be
-    resolved this way: unknown, never refuted."""
+    The conditions known at the use (`block`) travel along as conditions, not as derived facts: they speak about the values merged at
+    the LAST visit of each merge point, so on an incoming edge of a merge block all its phis are replaced together by what comes in on
+    that edge - in the difference and in every condition, before bounds and residues are derived from them.  A back edge whose incoming
+    values mention the head's own phis (the previous iteration's values under the same name) cannot be resolved this way: unknown,
+    never refuted."""
     f = A.f
-    v = tuple(v)
-    facts = list(extra) if extra is not None else A.facts_at(block)
+    ctx = (list(ir.conditions_at(f, block)), list(ir.switch_conds_at(f, block)), {})
+    return _pe(A, tuple(v), target, ctx, f.blocks[block].name, 0)
+
+
+def _edge_ctx(A, ctx, B, pb):
+    """context after deciding that block B was last entered from pb: B's merge values are what comes in on that edge, and the
+    conditions on the way to that edge hold as well"""
+    f = A.f
+    conds, sw, sub = ctx
+    sub2 = dict(sub)
+    for iid in f.blocks[B].insts:
+        P = f.insts[iid]
+        if P.op != "phi":
+            break
+        if (P.get("scev") or {}).get("k") == "rec":
+            continue
+        inc = [tuple(x[0]) for x in P.get("inc") if x[1] == pb]
+        if len(inc) == 1 and ("i", P.id) not in sub2:
+            sub2[("i", P.id)] = A.value(inc[0])
+    return (conds + list(ir.conditions_on_edge(f, pb, B)), sw + list(ir.switch_conds_on_edge(f, pb, B)), sub2)
+
+
+def _pe(A, v, target, ctx, where, depth):
+    f = A.f
     I = f.inst(v)
-    if I is not None and I.op == "phi" and not (I.get("scev") or {}).get("k") == "rec" and depth < 6:
+    if I is not None and I.op == "phi" and not (I.get("scev") or {}).get("k") == "rec" and depth < 6 and ("i", I.id) not in ctx[2]:
         worst = (True, None)
         for inc, pb in I.get("inc"):
             inc = tuple(inc)
-            if _stale_back_edge(A, I.b, pb, [A.value(inc)] + facts):
+            if _stale_back_edge(A, I.b, pb, [A.value(inc)]):
                 if worst[0]:
                     worst = (None, "the value comes round the loop at %s (edge from %s): not an affine function of the entry values" % (f.blocks[I.b].name, f.blocks[pb].name))
                 continue
-            fx = _subst_phis(A, facts, I.b, pb) + A.facts_on_edge(pb, I.b)
-            ok, why = prove_equal(A, inc, target, pb, depth + 1, fx)
+            ok, why = _pe(A, inc, target, _edge_ctx(A, ctx, I.b, pb), f.blocks[pb].name, depth + 1)
             if ok is False:
                 return False, why or ("on edge %s -> %s" % (f.blocks[pb].name, f.blocks[I.b].name))
             if ok is None and worst[0]:
                 worst = (None, why or ("on edge %s -> %s" % (f.blocks[pb].name, f.blocks[I.b].name)))
         return worst
     D = A.value(v).add(target, -1)
-    return _prove_zero(A, D, facts, f.blocks[block].name, depth)
+    return _prove_zero(A, D, ctx, where, depth)
 
 
 def _stale_back_edge(A, block, pred, lins):
-    """is pred -> block a back edge on which the incoming values of block's phis (as far as `lins` mention those phis) refer to block's own phis?"""
+    """is pred -> block a back edge on which the incoming values of block's phis refer to block's own phis?"""
     f = A.f
     L = [l for l in f.loops if l["header"] == block]
     if not L or pred not in L[0]["blocks"]:
@@ -661,18 +727,23 @@ def _stale_back_edge(A, block, pred, lins):
         if P.op != "phi":
             break
         own.add(("i", P.id))
-    mentioned = {t for e in lins for t in e if t in own}
-    for t in mentioned:
+    for t in own:
         P = f.inst(t)
+        if (P.get("scev") or {}).get("k") == "rec":
+            continue
         for inc, pb in P.get("inc"):
             if pb == pred and any(u in own for u in A.value(tuple(inc))):
                 return True
-    # the value itself (first element) may already be the incoming expression
-    return any(u in own for u in lins[0]) if lins else False
+    return any(u in own for e in lins for u in e)
 
 
-def _prove_zero(A, D, facts, where, depth):
+def _prove_zero(A, D, ctx, where, depth):
     f = A.f
+    conds, sw, sub = ctx
+    D = A.apply_sub(D, sub)
+    facts = A.facts_from_conds(conds, sw, sub)
+    if getattr(facts, "infeasible", False):
+        return True, None       # (vacuously: this combination of edges is never taken)
     res = entails_zero(D, facts, want_residue=True)
     if not res:
         return True, None
@@ -682,17 +753,15 @@ def _prove_zero(A, D, facts, where, depth):
     if depth < 6:
         for t in sorted((t for t in res if isinstance(t, tuple) and t[0] == "i"), key=repr):
             P = f.inst(t)
-            if P is None or P.op != "phi" or (P.get("scev") or {}).get("k") == "rec":
+            if P is None or P.op != "phi" or (P.get("scev") or {}).get("k") == "rec" or t in sub:
                 continue
             worst = (True, None)
             for _inc, pb in P.get("inc"):
-                if _stale_back_edge(A, P.b, pb, [Lin()] + [D] + facts):
+                if _stale_back_edge(A, P.b, pb, []):
                     if worst[0]:
                         worst = (None, "%s: a value comes round the loop at %s" % (why, f.blocks[P.b].name))
                     continue
-                D2 = _subst_phis(A, [D], P.b, pb)[0]
-                facts2 = _subst_phis(A, facts, P.b, pb) + A.facts_on_edge(pb, P.b)
-                ok, w2 = _prove_zero(A, D2, facts2, "%s via %s" % (where, f.blocks[pb].name), depth + 1)
+                ok, w2 = _prove_zero(A, D, _edge_ctx(A, ctx, P.b, pb), "%s via %s" % (where, f.blocks[pb].name), depth + 1)
                 if ok is False:
                     return False, w2
                 if ok is None and worst[0]:
@@ -700,6 +769,13 @@ def _prove_zero(A, D, facts, where, depth):
             return worst
     if all(s == 1 for s in res):
         return False, why     # the facts force the difference to a non-zero constant
+    ks = [s for s in res if isinstance(s, tuple) and s[0] == "k"]
+    if ks and all(s == 1 or s in ks for s in res):
+        # only iteration counters (and a constant) are left, all pulling the same way: a cursor that has moved on is not the start.
+        # The difference vanishes only if no iteration happens; the facts do not say so (they would have removed the counters)
+        signs = {(res[s] > 0) for s in ks} | ({res[1] > 0} if 1 in res else set())
+        if len(signs) == 1:
+            return False, why
     if all(s == 1 or (isinstance(s, tuple) and s[0] == "a") for s in res):
         # a non-zero combination of entry values of parameters: these are free inputs, unless a fact ties them to a value
         # this domain does not interpret (then the fact may force exactly the combination that makes the difference vanish)
